@@ -49,11 +49,7 @@ class Cx:
 
     # -------------------------------------------------------------- helpers
     def pg(self, fn):
-        g = self._pg.get(fn.key)
-        if g is None:
-            g = PG(self.prog, fn)
-            self._pg[fn.key] = g
-        return g
+        return self.prog.pg_of(fn)
 
     def fn(self, suffix):
         """A function by (suffix of) its path; private helpers are re-found by structural role when the
